@@ -233,7 +233,7 @@ impl Property for C23 {
         ]
     }
     fn cases(&self, tier: Tier) -> u32 {
-        tier.pick(40_000, 1_000_000)
+        tier.pick(120_000, 1_000_000)
     }
     fn strategy(&self, tier: Tier) -> BoxedStrategy<Case> {
         texts::doc(tier.pick(6, 12)).prop_map(|doc| Case { doc }).boxed()
